@@ -124,6 +124,16 @@ var properties = map[string]*propSpec{
 			{Check: "TestC05_History", Class: "nontrivial", Min: 0.2},
 		},
 	},
+	"C06": {
+		Title: "Parse and parsed functions are safe for concurrent use",
+		Checks: []checkSpec{
+			{Test: "TestC06_Concurrent", Quick: 25, Thorough: 700, Rapid: true, Race: true, Flaky: true, Shards: 12},
+		},
+		Assumptions: assume("the harness does not own the Go scheduler: the claim is 'no race and no wrong result in the generated concurrent workloads under the race detector', not 'for all interleavings'", "the race detector reports unsynchronised conflicting accesses that occur in the run; code no goroutine pair executed concurrently cannot be reported", "schedules are not a function of VERIF_SEED; failures are replayed as scenarios (up to 20 attempts), not as schedules"),
+		Floors: []floor{
+			{Check: "TestC06_Concurrent", Class: "nontrivial", Min: 0.5},
+		},
+	},
 	"C07": {
 		Title: "Result order is deterministic: sorted keys, index order, written order",
 		Checks: []checkSpec{
